@@ -269,8 +269,8 @@ pub fn gen(r: &mut Rng, f: &Family, budget: usize) -> J {
             "cfgrep" => json!(["collect", [*r.pick(&["cfgrep", "cfgrepmin", "cfgrepmax"]), ["rep", non_empty(r, f, budget - 1), b.0, b.1]], "vec"]),
             "cfgrun" => json!(["run", ["cfgrep", ["rep", non_empty(r, f, budget - 1), 0, -1]]]),
             // guarded recursion templates: a token is consumed before every self reference
-            "recA" => json!(["rec", ["or", ["then", non_empty(r, f, budget - 1), ["ref", 1]], r.pick(&f.leaves).clone()]]),
-            "recB" => json!(["rec", ["delim", ["ornot", ["ref", 1]], ["just", ["("]], ["just", [")"]]]]),
+            "recA" => json!([*r.pick(&["rec", "recd"]), ["or", ["then", non_empty(r, f, budget - 1), ["ref", 1]], r.pick(&f.leaves).clone()]]),
+            "recB" => json!([*r.pick(&["rec", "recd"]), ["delim", ["ornot", ["ref", 1]], ["just", ["("]], ["just", [")"]]]]),
             "recC" => json!(["rec", ["collect", ["rep", ["or", ["delim", ["ref", 1], ["just", ["("]], ["just", [")"]]], non_empty(r, f, budget - 1)], 0, -1], "vec"]]),
             o => json!([o, gen(r, f, budget - 1)]),
         }
